@@ -95,6 +95,25 @@ func init() {
 	})
 
 	register(&PropCheck{
+		ID:      "C10",
+		PkgDirs: []string{"internal/peers"},
+		Level:   "other",
+		Explanation: "The signaling hub (Add with last-write-wins replacement, the remove closure, CloseSession, SendTo, Broadcast, BroadcastExcept, List) is executed symbolically as a sequential object: session ids and peer ids of up to three connections and of the addressee are symbolic one-byte strings, so whether two connections share a session, carry the same peer id or replace one another is decided by the solver. Assertions over the per-connection channels: an addressed message is queued exactly on the connection registered for (session, peer); a broadcast on every other current connection of that session and on nothing else; SendTo is false iff the addressee is unknown; per-connection order is preserved without duplication; after remove/CloseSession a peer is neither routable nor listed and empty sessions leave no map entries.",
+		Rule:        "assertion sites: vAssert lines of H_C10_*",
+		Assumptions: []string{"writer goroutines stay pending (messages observed in the 256-slot channels; a full channel drops by design)", "the 1 s wait for the writer in remove() times out (the timer branch is taken)", "the From overwrite and the unknown-addressee error of cmd/thruserv's read loop, JSON and WebSocket framing are outside this check"},
+		Bounds:      func(tier string) string { return "<= 3 connections over symbolic 1-byte session and peer ids; 3 messages for the ordering obligation" },
+		Jobs: func(tier string, prog *ssa.Program) []*Job {
+			var js []*Job
+			for _, h := range [][2]string{{"sendto", "addressed delivery"}, {"broadcast", "broadcast delivery"}, {"fifo", "per-connection order"}, {"lifecycle", "routable/listed exactly while connected; no leaks"}} {
+				j := hjp("internal/peers", "C10."+h[0], "H_C10_"+h[0], h[1])
+				j.BlockedOK = true
+				js = append(js, j)
+			}
+			return js
+		},
+	})
+
+	register(&PropCheck{
 		ID:      "C12",
 		PkgDirs: []string{"internal/app"},
 		Level:   "model_checking",
